@@ -88,7 +88,7 @@ theorem part1_roundtrip (w : World) (P0 : List Op) (cfg : EncCfg) (s0 : St) (hs0
     (hp : w.IsPrefix (P0 ++ p.s4.ops)) (hLM : cfg.LM < 4) (hlen : w.len ≤ p.size1)
     (hmargin : w.len = p.size1 ∨ tell (w.encAt (P0 ++ p.s4.ops)) + 16 ≤ ((w.len * 8 : Nat) : Int))
     (hroom : tell s0.e < ((w.len * 8 : Nat) : Int))
-    (htap : p.pf.on ≠ 0 → ∀ s' d', Here w P0 s' d' → Ext s' p.s2 → tell s'.e + 2 ≤ ((w.len * 8 : Nat) : Int)) :
+    (htap : p.pf.on ≠ 0 → tell (w.encAt (P0 ++ p.s2.ops.dropLast)) + 2 ≤ ((w.len * 8 : Nat) : Int)) :
     ∃ (pfD : Opus.CeltSyms.PostFilter) (c5 : Dec) (tr : List Opus.CeltSyms.CEv) (c6 : Dec) (tr' : List Opus.CeltSyms.CEv),
       Opus.CeltSyms.readFlags ⟨cfg.start, cfg.end_, cfg.C, cfg.LM⟩ ((w.len * 8 : Nat) : Int) (w.decAt P0) =
         ((0, pfD, p.isT, p.intra), c5, tr) ∧
@@ -124,7 +124,11 @@ theorem part1_roundtrip (w : World) (P0 : List Op) (cfg : EncCfg) (s0 : St) (hs0
     (by
       intro s3 d3 h3 hx2 hon
       rw [← htotE, p.h2] at hx2 hon
-      exact htap hon s3 d3 h3 hx2)
+      obtain ⟨op, hop⟩ := hx2
+      have := htap hon
+      simp only [] at hop
+      rw [hop, List.dropLast_concat, ← h3.enc] at this
+      exact this)
   rw [← htotE, p.h2] at b1 b2 b3 b4 b5 b6 b7
   simp only at b1 b2 b3 b4 b5 b6 b7
   generalize hrp : Opus.CeltSyms.readPostFilter cfg.start totD p.tv c1 = rp at *
